@@ -118,10 +118,13 @@ tree (root, a link), the allocator, the sentinel constant or a caller's handle, 
 get_unchecked outside the arena accessors is bounded (list positions come from Ok(i) / Err(i)-1 under i>0 of a search on
 the same vector or are caller handles; segment-tree indices are guarded by a length check that nothing invalidates, or
 are bits of a layout mask) [UNCHECKED]; every integer + - * << >>, checked indexing, unwrap and explicit panic is
-discharged by a dominating guard / recognised idiom or by a reasoned table entry [PANICSITE]. Not decided: termination of the repair recursion, arithmetic in the seg
-layout (C14).""",
-     ["C02 for the reasoned exceptions (inner child of a rotated node, sibling of a double-black node, non-root has a parent)"],
-     {'NULL': 190, 'PROVENANCE': 150, 'STALE': 20, 'UNCHECKED': 14, 'PANICSITE': 60})
+discharged by a dominating guard / recognised idiom or by a reasoned table entry [PANICSITE]; the reasons behind
+NULL's exceptions are red-black shape invariants, and the structural checks that protect them in the tree core (the three
+copies of every core function agree, mirror twins and mirrored arms are mirror images, guarded effects are left/right
+symmetric) are part of this check: a repair arm that deviates from its twin is reported here as well [TWIN]. Not decided:
+termination of the repair recursion, arithmetic in the seg layout (C14).""",
+     ["C02 for the reasoned exceptions (inner child of a rotated node, sibling of a double-black node, non-root has a parent); its structural part is re-checked here through TWIN"],
+     {'NULL': 190, 'PROVENANCE': 150, 'STALE': 20, 'UNCHECKED': 14, 'PANICSITE': 60, 'TWIN': 70})
 
 prop('C13', """
 Static analysis (MIR/SSA). Decided clauses so far for the expiring-key list: the purge keeps exactly
